@@ -5,9 +5,9 @@ set -u
 . "$(dirname "$0")/env.sh"
 cd "$VERIF_ROOT"
 mkdir -p bin work
-cp /repo/go.sum go.sum 2>/dev/null
+cp "$VERIF_REPO/go.sum" go.sum 2>/dev/null
 go build -o bin/rewrite ./tools/rewrite || { echo "BUILD-FAILED: rewriter" >&2; exit 2; }
-bin/rewrite /repo "$VERIF_ROOT/internal/vsched" "$VERIF_ROOT/work/rw" 2> work/rewrite.log || { cat work/rewrite.log >&2; exit 2; }
+bin/rewrite "$VERIF_REPO" "$VERIF_ROOT/internal/vsched" "$VERIF_ROOT/work/rw" 2> work/rewrite.log || { cat work/rewrite.log >&2; exit 2; }
 if ! go build -tags vsched -overlay work/rw/overlay.json -o bin/check-overlay ./cmd/check 2> work/build.overlay.log; then
   cat work/build.overlay.log >&2
   echo "BUILD-FAILED: the rewritten library or the harness does not compile against the current /repo tree" >&2
